@@ -1,4 +1,5 @@
 import ThruVerif.Model.Decision
+import ThruVerif.Gen.Shapes
 import ThruVerif.Props.C01
 /-!
 # C02 — No false success under faults
@@ -53,5 +54,19 @@ theorem C02_file (src disk0 : List Nat) (bits0 : List Bool) (h0 : InitOk src dis
 
 -- the unfixed behaviour, as a model fact: counting a failed file would make `endRecord` return ok
 example : recvTurn 1 1 false .endRecord = .ok ∧ recvTurn 0 1 false .endRecord = .err := by decide
+
+
+/-! ## the receiver's main loop, as regenerated on this run (xlate, `Gen/Shapes.lean`) -/
+
+set_option maxRecDepth 16384 in
+/-- per `case` of the receiver's last `for { select … }`: the communication and every `if` condition inside it (enclosing
+conditions first). `Decision.recvTurn` was transcribed from exactly this text; success is returned only where
+`completedCount >= totalFiles` stands. -/
+theorem C02_source_recv_loop : TV.Gen.Shapes.recv_main_loop =
+    ["<-recvCtx.Done() :: recvErr != nil",
+     "<-doneCh :: endReceived && completedCount >= totalFiles",
+     "err := <-controlErr :: err != nil && !errors.Is(err, io.EOF) | err != nil && !errors.Is(err, io.EOF) ; isGracefulRemoteClose(err) && completedCount >= totalFiles | completedCount >= totalFiles",
+     "err := <-dataErrCh :: err != nil | err != nil ; isGracefulRemoteClose(err) && completedCount >= totalFiles",
+     "ev := <-controlCh :: ev.typ == controlTypeEnd | ev.typ == controlTypeEnd ; completed >= totalFiles | err != nil"] := by decide
 
 end TV.C02
